@@ -5,30 +5,45 @@ import BU.Driver.Block
 import BU.Driver.Digest
 import BU.Driver.Taproot
 import BU.Driver.Keys
+import BU.Driver.Heap
 /-! Compiled driver (`lean_exe budriver`): one request per line on stdin, one answer per line on
 stdout.  Imports Model/Spec/Crypto only — never `BU.Gen.*`, never Mathlib. -/
 open Driver
 
 def allOps : List (String × (Model.Tables → R String)) := wireOps ++ timelockOps ++ blockOps ++ digestOps ++ taprootOps ++ keyOps ++ keyOps2
 
-def handle (T : Model.Tables) (line : String) : Model.Tables × String :=
+structure St where
+  tables : Model.Tables := default
+  hst : HSt := {}
+deriving Inhabited
+
+def handle (S : St) (line : String) : St × String :=
+  let T := S.tables
   match (line.splitOn " ").filter (· ≠ "") with
-  | [] => (T, "bad-op")
+  | [] => (S, "bad-op")
   | op :: args =>
     if op == "tables" then
       match (tables.run args) with
-      | .ok (t, _) => (t, "ok")
-      | .error e => (T, "bad-args " ++ e)
+      | .ok (t, _) => ({ S with tables := t }, "ok")
+      | .error e => (S, "bad-args " ++ e)
+    else if op.startsWith "m:h_" then
+      match heapOps.lookup (op.drop 2).toString with
+      | none => (S, "bad-op")
+      | some f =>
+        match (f T S.hst).run args with
+        | .ok ((hst, out), []) => ({ S with hst := hst }, s!"ok {out} | {dump T hst}")
+        | .ok (_, _) => (S, "bad-args trailing")
+        | .error e => (S, "bad-args " ++ e)
     else
       match allOps.lookup op with
-      | none => (T, "bad-op")
+      | none => (S, "bad-op")
       | some f =>
         match (f T).run args with
-        | .ok (s, []) => (T, s)
-        | .ok (_, _) => (T, "bad-args trailing")
-        | .error e => (T, "bad-args " ++ e)
+        | .ok (s, []) => (S, s)
+        | .ok (_, _) => (S, "bad-args trailing")
+        | .error e => (S, "bad-args " ++ e)
 
-partial def loop (hIn hOut : IO.FS.Stream) (T : Model.Tables) : IO Unit := do
+partial def loop (hIn hOut : IO.FS.Stream) (T : St) : IO Unit := do
   let line ← hIn.getLine
   if line.isEmpty then return ()
   let (T', out) := handle T (line.trimAsciiEnd.toString)
